@@ -188,6 +188,7 @@ type WorkerOut struct {
 	KnownReplay map[string]string `json:"known_replays,omitempty"`
 	HarnessErr  string            `json:"harness_error,omitempty"`
 	DetChecks   int               `json:"determinism_rechecks"`
+	DetMismatch int               `json:"determinism_mismatches"`
 	NextBatch   int               `json:"next_batch"`
 	Hashes      []string          `json:"-"`
 	StateHashes int               `json:"distinct_final_states"`
@@ -345,7 +346,7 @@ func ledgerEngine(prop string, known []KnownFinding) *engine {
 		name: "ledger-sim",
 		gen:  func(rt *rapid.T, batch int) any { return GenInput(rt, &profs[batch%len(profs)]) },
 		run: func(t *testing.T, in any, keep bool) *Result {
-			return Run(t, in.(*Input), prop, keep)
+			return runLedger(t, in.(*Input), prop, keep)
 		},
 		nontrivial: func(res *Result) bool { return nontrivial(prop, res) },
 		sample:     func(in any, res *Result) any { return sampleOf(in.(*Input), res) },
@@ -355,6 +356,62 @@ func ledgerEngine(prop string, known []KnownFinding) *engine {
 			return shrinkInput(in.(*Input), func(c *Input) bool { return hasSig(Run(t, c, prop, false), sig) }, 25*time.Second)
 		},
 	}
+}
+
+func runLedger(t *testing.T, in *Input, prop string, keep bool) *Result {
+	res := Run(t, in, prop, keep)
+	if prop == "C14" {
+		judgePreviewTxIDs(t, in, res)
+	}
+	return res
+}
+
+// judgePreviewTxIDs: in a concurrent run for C14, a broken id sequence (what the engine hands
+// the store no longer continues the persisted ids) is attributed to the previews only if
+// some preview ran and the same input with every preview removed shows no such break:
+// "every later sequence of requests behaves exactly as if the preview had never been made".
+func judgePreviewTxIDs(t *testing.T, in *Input, res *Result) {
+	var broken *Violation
+	for i := range res.Violations {
+		if res.Violations[i].Prop == "C14x" {
+			broken = &res.Violations[i]
+		}
+	}
+	if broken == nil {
+		return
+	}
+	previews := 0
+	for _, o := range res.Ops {
+		if o.Op.DryRun {
+			previews++
+		}
+	}
+	if previews == 0 {
+		return
+	}
+	without := cloneInput(in)
+	for gi := range without.Gens {
+		for ci := range without.Gens[gi].Clients {
+			var keep []Op
+			for _, o := range without.Gens[gi].Clients[ci] {
+				if !o.DryRun {
+					keep = append(keep, o)
+				}
+			}
+			without.Gens[gi].Clients[ci] = keep
+		}
+	}
+	ref := Run(t, without, "C14", false)
+	for _, v := range ref.Violations {
+		if v.Prop == "C14x" {
+			return // broken without any preview as well: not the previews' doing (C05's business)
+		}
+	}
+	if ref.HarnessErr != "" {
+		return
+	}
+	res.Violations = append(res.Violations, Violation{Prop: "C14", Class: "preview-disturbs-ids", Step: broken.Step, Features: []string{broken.Class},
+		Detail: "with previews running concurrently: " + broken.Detail + "; the same requests and schedule without the previews keep the ids in sequence"})
 }
 
 func lockerEngine() *engine {
@@ -475,7 +532,8 @@ func runEngine(t *testing.T, eng *engine) {
 					again := eng.run(t, in, false)
 					out.DetChecks++
 					if again.Digest != res.Digest {
-						harnessExit(out, "non-deterministic replay of the same input inside one process (event-log digests differ)", in)
+						// reported by the driver: exit 2 unless an exactly reproducible violation is found
+						out.DetMismatch++
 					}
 				}
 			} else {
@@ -603,7 +661,7 @@ func runReplay(t *testing.T) {
 		finishReplay(&rf, RunDiff(t, rf.Diff, true), nil)
 		return
 	}
-	res := Run(t, rf.Input, rf.Property, true)
+	res := runLedger(t, rf.Input, rf.Property, true)
 	finishReplay(&rf, res, res.Media)
 }
 
